@@ -634,6 +634,25 @@ impl Hypercore {
     @*/
 }
 
+/// C01 / C02: the entries found in the oplog are a redo log - replaying entries[0..i) on the flushed state gives, for the
+/// bitfield, the bits of the last update that covers an index ...
+pub open spec fn replay_bit(b0: spec_fn(int) -> bool, entries: Seq<Entry>, i: int, k: int) -> bool
+    decreases i
+{
+    if i <= 0 { b0(k) } else {
+        let e = entries[i - 1];
+        if e.bitfield is Some && e.bitfield->Some_0.start <= k < e.bitfield->Some_0.start + e.bitfield->Some_0.length { !e.bitfield->Some_0.drop }
+        else { replay_bit(b0, entries, i - 1, k) }
+    }
+}
+/// ... and for the tree the length and fork of the last stored tree upgrade
+pub open spec fn replay_len(l0: u64, entries: Seq<Entry>, i: int) -> u64
+    decreases i
+{ if i <= 0 { l0 } else if entries[i - 1].tree_upgrade is Some { entries[i - 1].tree_upgrade->Some_0.length } else { replay_len(l0, entries, i - 1) } }
+pub open spec fn replay_fork(f0: u64, entries: Seq<Entry>, i: int) -> u64
+    decreases i
+{ if i <= 0 { f0 } else if entries[i - 1].tree_upgrade is Some { entries[i - 1].tree_upgrade->Some_0.fork } else { replay_fork(f0, entries, i - 1) } }
+
 impl Hypercore {
     /*@ fn src/core.rs Hypercore::new ; noisolation
     tags: C01 C02 C10 C12
@@ -654,12 +673,20 @@ impl Hypercore {
     sub `for node in &entry\.tree_nodes \{` => `for node in it_n: entry.tree_nodes.iter() {`
     loop 1:
         invariant
-            !storage.failed@, bitfield.wf(), storage.journal@.len() <= old_journal_len + 2
+            !storage.failed@, bitfield.wf(), storage.journal@.len() <= old_journal_len + 2,
+            // C01 / C02 replay of the pending entries (redo log): every stored bitfield update and tree upgrade is applied, in order
+            forall|k: int| #![trigger bitfield.bit(k)] 0 <= k ==> bitfield.bit(k) == replay_bit(bits0, entries@, it_e.index@ as int, k),
+            tree.length == replay_len(len0, entries@, it_e.index@ as int), tree.fork == replay_fork(fork0, entries@, it_e.index@ as int)
     loop 2:
         invariant
-            !storage.failed@, bitfield.wf(), storage.journal@.len() <= old_journal_len + 2
+            !storage.failed@, bitfield.wf(), storage.journal@.len() <= old_journal_len + 2,
+            tree.length == replay_len(len0, entries@, it_e.index@ as int), tree.fork == replay_fork(fork0, entries@, it_e.index@ as int)
     first:
         let ghost old_journal_len = storage.journal@.len();
+    before `for entry in it_e: entries.iter() {`:
+        let ghost bits0 = |k: int| bitfield.bit(k);
+        let ghost len0 = tree.length;
+        let ghost fork0 = tree.fork;
     unproved-from `bitfield.update(bitfield_update);` to `if let Some(tree_upgrade) = &entry.tree_upgrade {`:
         replaying entries read from disk: the ranges carried by stored entries and the exactness of the stored hint
         depend on the contents of the oplog file, which no contract on this function can constrain
